@@ -58,6 +58,39 @@ type Spec struct {
 	ExpectReplay func(sub *Sub, before []PutRec) (want []string, ok bool)
 	// Ignore lists message tags that are not part of the scenario proper (the pre-initialisation message).
 	Ignore map[string]bool
+	// Repeats lists the tags of message VALUES that one publisher publishes several times (the same
+	// *Message). Their publications are told apart by Joe's own serialisation: the n-th Put of tag t and
+	// every Send of t until its next Put are relabelled t@n, and the scenario's Msgs carry those labels.
+	// A Send of t that comes too late or too often therefore shows as a duplicate of the latest publication.
+	Repeats map[string]bool
+}
+
+func relabel(in []jh.Ev, rep map[string]bool) []jh.Ev {
+	out := make([]jh.Ev, len(in))
+	count := map[string]int{}
+	lab := func(t string) string {
+		b := base(t)
+		if !rep[b] {
+			return t
+		}
+		return fmt.Sprintf("%s@%d%s", b, count[b], t[len(b):])
+	}
+	for i, e := range in {
+		switch e.Kind {
+		case "put":
+			if b := base(e.Msg); rep[b] {
+				count[b]++
+			}
+			e.Msg = lab(e.Msg)
+			if e.Out != "" {
+				e.Out = lab(e.Out)
+			}
+		case "send":
+			e.Msg = lab(e.Msg)
+		}
+		out[i] = e
+	}
+	return out
 }
 
 func base(t string) string {
@@ -122,7 +155,11 @@ func Check(sp *Spec) string {
 		}
 		return ""
 	}
-	for _, e := range sp.JL.E {
+	events := sp.JL.E
+	if len(sp.Repeats) > 0 {
+		events = relabel(events, sp.Repeats)
+	}
+	for _, e := range events {
 		switch e.Kind {
 		case "put":
 			e.Msg = base(e.Msg)
